@@ -23,6 +23,7 @@ import (
 	"testing"
 	"time"
 
+	"github.com/caddyserver/certmagic"
 	"github.com/tmpim/casket"
 	"pgregory.net/rapid"
 
@@ -138,6 +139,8 @@ type Case struct {
 	// in place and the configuration reloaded (CA rotation).
 	CA     int  `json:"ca,omitempty"`
 	Rotate bool `json:"rotate,omitempty"`
+	// DefaultSNI: the process runs with -default-sni <name> (the name a ClientHello without SNI is taken to ask for)
+	DefaultSNI string `json:"default_sni,omitempty"`
 }
 
 var vers = map[string]uint16{"tls1.0": tls.VersionTLS10, "tls1.1": tls.VersionTLS11, "tls1.2": tls.VersionTLS12, "tls1.3": tls.VersionTLS13}
@@ -242,6 +245,8 @@ func siteRange(s Site) (uint16, uint16) {
 func runCase(c *Case) (nontrivial int, err error) {
 	setupCerts()
 	cf := casketfile(c)
+	certmagic.Default.DefaultServerName = c.DefaultSNI
+	defer func() { certmagic.Default.DefaultServerName = "" }()
 	if c.Rotate {
 		writePEM(clientCA, "CERTIFICATE", clientCADer[1-c.CA])
 	} else {
@@ -276,6 +281,12 @@ func runCase(c *Case) (nontrivial int, err error) {
 		return 0, fmt.Errorf("HARNESS: no TLS listener among %v", srv.Addrs(inst))
 	}
 	for i, sh := range c.Shakes {
+		if sh.SNI == "" && c.DefaultSNI != "" {
+			// what a ClientHello without SNI gets under -default-sni (settings of the default name, certificate
+			// possibly of the local address) is not something the statement settles: no verdict.  The switch is
+			// there for the handshakes that do name a host: it must play no part in them.
+			continue
+		}
 		want, ncand := matchSite(c.Sites, sh.SNI)
 		desc := fmt.Sprintf("handshake %d %+v against sites %+v", i, sh, c.Sites)
 		requested := false
@@ -526,6 +537,18 @@ func genCase(t *rapid.T) *Case {
 	}).Draw(t, "hosts")
 	for i, h := range hosts {
 		c.Sites = append(c.Sites, genSite(t, fmt.Sprintf("s%d", i), h))
+	}
+	if rapid.IntRange(0, 3).Draw(t, "dsni") == 0 {
+		// one of the declared exact names
+		var exact []string
+		for _, st := range c.Sites {
+			if st.Host != "" && !strings.Contains(st.Host, "*") && net.ParseIP(st.Host) == nil {
+				exact = append(exact, st.Host)
+			}
+		}
+		if len(exact) > 0 {
+			c.DefaultSNI = rapid.SampledFrom(exact).Draw(t, "dsniv")
+		}
 	}
 	c.CA = rapid.IntRange(0, 1).Draw(t, "ca")
 	c.Rotate = rapid.IntRange(0, 3).Draw(t, "rotate") == 0
